@@ -29,7 +29,14 @@
   tags after step 3; vertex stability through `add_free_darts`, `build_base_edge`, `insert_vertices_on_edge`, the placeholder
   replacement and `mark_boundary`; independence of both `HashMap` orders (they are universally quantified parameters).
 
-  NAMED HYPOTHESES (each satisfiable — the two examples at the end instantiate everything on a 3 × 1 grid — and each
+  FULL FORMS (`C16_crossings_are_vertices`, `C16_poi_are_vertices`, `C17_poi_are_node_vertices`): `KeysOK` and `EdgeDartsInUse`
+  are PROVED (`keysOK_of_hit_edges`, `C16_edge_darts_in_use` with the second all-edges induction `insertIntersections_linked`
+  and the analysis of `new_segments` in general position `segmentsFrom_ok`); what is left: `SideCoords`, `HitDartsOK` (about
+  the grid map only; both are theorems on the builder's grid: `Props/C16ChainGrid.lean`), `KeysAreHitEdges` (about the `HashMap`
+  only), "the keys of step 4 are intersections", `GenPos`, success of the run, `OnChain`.  The `_partial` forms below keep
+  `KeysOK` / `EdgeDartsInUse` as hypotheses.
+
+  NAMED HYPOTHESES of the `_partial` forms (each satisfiable — the two examples at the end instantiate everything on a 3 × 1 grid — and each
   evaluated by the tie on every generated case):
   * success of the run (`pipelineMap … = some m'`): in particular step 5 does not hit the consecutive-darts panic of
     `build_base_edge` and `insert_vertices_on_edge` finds its end points; a panicking run returns no map
@@ -1047,6 +1054,412 @@ theorem C16_stepFive_carries {m m' : Map Val} {ha : Bool} {edges : List MEdge} (
   · obtain ⟨x, c0, ca⟩ := pois j e hj q pt hq
     exact ⟨x, c0, fun hat => by have := ca hat; rwa [Nat.zero_add] at this⟩
 
+/-! ## the new darts of step 3 are in use and 2-linked (towards `EdgeDartsInUse`) -/
+
+/-- one insertion on a block `off ..+ 2·len`: the new darts are in use; on a two-dart edge they are 2-linked -/
+theorem insert_block_linked {m m' : Map Val} {e off len : Nat} {ts : List Rat} (hlen : ts.length = len) (hwf : WF 3 m)
+    (he : C01.InUse m e) (hlive : ∀ d, d ∈ List.range' off (2 * len) → m.unused d = false)
+    (hr : run (insertVerticesOnEdge m.n e (List.range' off (2 * len)) ts) m = (.ok (), m')) {i : Nat} (hilt : i < len) :
+    C01.InUse m' (off + i) ∧
+    (m.β 2 e ≠ 0 → C01.InUse m' (off + (len + (len - 1 - i))) ∧ m'.β 2 (off + i) ≠ 0 ∧
+      m'.β 2 (off + (len + (len - 1 - i))) ≠ 0) := by
+  have hsplit : List.range' off (2 * len) = List.range' off len ++ List.range' (off + len) len := by
+    rw [show 2 * len = len + len by omega, ← List.range'_append, Nat.one_mul]
+  have htake : (List.range' off (2 * len)).take ts.length = List.range' off len := by
+    rw [hlen, hsplit, List.take_left' (by rw [List.length_range'])]
+  have hdrop : (List.range' off (2 * len)).drop ts.length = List.range' (off + len) len := by
+    rw [hlen, hsplit, List.drop_left' (by rw [List.length_range'])]
+  have hfhnd : ((List.range' off (2 * len)).take ts.length).Nodup := by rw [htake]; exact List.nodup_range'
+  have inv := C14.insertVertices_inv m m' e _ _ hwf he hlive (fun _ => List.nodup_range') hr
+  have H := C14.insHyp_insertVertices m m' e _ _ hwf he hlive hfhnd (fun _ => List.nodup_range') hr
+  rw [htake, hdrop] at H
+  have el := C14.insertVertices_ok_elim hr
+  have lt_of : ∀ d, d ∈ List.range' off (2 * len) → d < m.n := fun d hd => ((hwf.toSized.okβ 0 _).1 (el.2.1 d hd).1).2
+  have m1 : off + i ∈ List.range' off (2 * len) := List.mem_range'_1.2 ⟨by omega, by omega⟩
+  have hd0 : off + i ≠ 0 := el.2.2.2.1 (off + i) (by rw [htake]; exact List.mem_range'_1.2 ⟨by omega, by omega⟩)
+  have iu : ∀ d, d ∈ List.range' off (2 * len) → d ≠ 0 → C01.InUse m' d := fun d hd h0 =>
+    ⟨h0, by rw [inv.n_eq]; exact lt_of d hd, by unfold Map.unused; rw [inv.u_eq]; exact hlive d hd⟩
+  refine ⟨iu _ m1 hd0, fun he2 => ?_⟩
+  have m2 : off + (len + (len - 1 - i)) ∈ List.range' off (2 * len) := List.mem_range'_1.2 ⟨by omega, by omega⟩
+  have hx0 : off + (len + (len - 1 - i)) ≠ 0 :=
+    el.2.2.2.2.1 he2 _ (by rw [hdrop]; exact List.mem_range'_1.2 ⟨by omega, by omega⟩)
+  have hlenF : (List.range' off len).length = len := List.length_range'
+  -- β2 pairs `S2[j]` with `S1[len - j]`
+  have p1 := H.pairs_index he2 (len - 1 - i) (by rw [hlenF]; omega)
+  have p2 := H.pairs_index he2 (len - i) (by rw [hlenF]; omega)
+  rw [hlenF] at p1 p2
+  have e1 : (e :: List.range' off len).getD (len - (len - 1 - i)) 0 = off + i := by
+    have : len - (len - 1 - i) = i + 1 := by omega
+    rw [this, List.getD_cons_succ, range'_getD hilt]
+  have e2 : (m.β 2 e :: List.range' (off + len) len).getD (len - i) 0 = off + (len + (len - 1 - i)) := by
+    have : len - i = (len - 1 - i) + 1 := by omega
+    rw [this, List.getD_cons_succ, range'_getD (by omega)]; omega
+  refine ⟨iu _ m2 hx0, ?_, ?_⟩
+  · -- the partner of `off + i` is `S2[len - 1 - i]`: the old opposite dart or a dart of the second half
+    rw [← e1, p1.2]
+    by_cases hz : len - 1 - i = 0
+    · rw [hz]; simpa using he2
+    · have : len - 1 - i = (len - 1 - i - 1) + 1 := by omega
+      rw [this, List.getD_cons_succ, range'_getD (by omega)]
+      intro h0
+      exact el.2.2.2.2.1 he2 _ (by rw [hdrop]; exact List.mem_range'_1.2 ⟨by omega, by omega⟩) h0
+  · rw [← e2, p2.1]
+    by_cases hz : len - (len - i) = 0
+    · rw [hz]; simpa using he.1
+    · have : len - (len - i) = (len - (len - i) - 1) + 1 := by omega
+      rw [this, List.getD_cons_succ, range'_getD (by omega)]
+      intro h0
+      exact el.2.2.2.1 _ (by rw [htake]; exact List.mem_range'_1.2 ⟨by omega, by omega⟩) h0
+
+/-- the all-edges induction again, for the discrete facts: every new dart of every block is in use, and 2-linked when its
+    grid edge was; β2 of the darts below `off` that belong to no processed edge is unchanged -/
+theorem insertIntersections_linked : ∀ (gs : List (Nat × List Hit)) (m m' : Map Val) (off : Nat), WF 3 m →
+    (∀ d, off ≤ d → d < m.n → m.unused d = false ∧ ∀ i, i < 3 → m.β i d = 0) →
+    off + 2 * (gs.map (·.2.length)).sum ≤ m.n → 0 < off →
+    (∀ g, g ∈ gs → C01.InUse m g.1 ∧ g.1 < off ∧ m.β 1 g.1 ≠ 0) →
+    (gs.map (·.1)).Nodup → (∀ g, g ∈ gs → ∀ g', g' ∈ gs → m.β 2 g.1 ≠ g'.1) →
+    run (insertIntersections m.n (gs.zip (slicesFrom off (gs.map (·.2.length))))) m = (.ok (), m') →
+    WF 3 m' ∧ m'.n = m.n ∧ m'.u = m.u ∧
+    (∀ y, y < off → (∀ g, g ∈ gs → y ≠ g.1 ∧ y ≠ m.β 2 g.1) → m'.β 2 y = m.β 2 y) ∧
+    (∀ (j : Nat) (g : Nat × List Hit), gs[j]? = some g → ∀ (i : Nat), i < g.2.length →
+        C01.InUse m' (off + 2 * ((gs.map (·.2.length)).take j).sum + i) ∧
+        (m.β 2 g.1 ≠ 0 →
+          C01.InUse m' (off + 2 * ((gs.map (·.2.length)).take j).sum + (g.2.length + (g.2.length - 1 - i))) ∧
+          m'.β 2 (off + 2 * ((gs.map (·.2.length)).take j).sum + i) ≠ 0 ∧
+          m'.β 2 (off + 2 * ((gs.map (·.2.length)).take j).sum + (g.2.length + (g.2.length - 1 - i))) ≠ 0)) := by
+  intro gs
+  induction gs with
+  | nil =>
+      intro m m' off hwf _ _ _ _ _ _ hr
+      simp only [List.map_nil, slicesFrom, List.zip_nil_right, insertIntersections, Prog.pure_eq, run_ret,
+        Prod.mk.injEq] at hr
+      rw [← hr.2]
+      exact ⟨hwf, rfl, rfl, fun _ _ _ => rfl, fun j g hg => by simp at hg⟩
+  | cons g rest ih =>
+      intro m m' off hwf hfresh hroom hpos hkeys hnd hcan hr
+      simp only [List.map_cons, slicesFrom, List.zip_cons_cons, insertIntersections, Prog.bind_eq] at hr
+      obtain ⟨_, m1, h1, h2⟩ := run_bind_ok hr
+      simp only [List.map_cons, List.sum_cons] at hroom
+      set len := g.2.length with hlen
+      obtain ⟨ig, glt, gb1⟩ := hkeys g List.mem_cons_self
+      have hts : (g.2.map (·.t)).length = len := by rw [List.length_map]
+      have hlive : ∀ d, d ∈ List.range' off (2 * len) → m.unused d = false := by
+        intro d hd
+        have := List.mem_range'_1.1 hd
+        exact (hfresh d (by omega) (by omega)).1
+      have hfhnd : ((List.range' off (2 * len)).take (g.2.map (·.t)).length).Nodup :=
+        (List.nodup_range').sublist (List.take_sublist _ _)
+      have inv := C14.insertVertices_inv m m1 g.1 _ _ hwf ig hlive (fun _ => List.nodup_range') h1
+      obtain ⟨w1, hres⟩ := C14.C14_insertVertices_beta_structure m m1 g.1 _ _ hwf ig hlive hfhnd
+        (fun _ => List.nodup_range') h1
+      have inF : ∀ y, y ∈ (List.range' off (2 * len)).take (g.2.map (·.t)).length → off ≤ y ∧ y < off + 2 * len := by
+        intro y hy; have := List.mem_range'_1.1 (List.mem_of_mem_take hy); omega
+      have inS : ∀ y, y ∈ (List.range' off (2 * len)).drop (g.2.map (·.t)).length → off ≤ y ∧ y < off + 2 * len := by
+        intro y hy; have := List.mem_range'_1.1 (List.mem_of_mem_drop hy); omega
+      have hb2lt : ∀ g', g' ∈ g :: rest → m.β 2 g'.1 < off := by
+        intro g' hg'
+        obtain ⟨a, _, _⟩ := hkeys g' hg'
+        by_cases hz : m.β 2 g'.1 = 0
+        · rw [hz]; exact hpos
+        · have hi := hwf.invol 2 (by omega) (by omega) g'.1 a.2.1 hz
+          exact not_fresh hfresh (hwf.range 2 (by omega) _ a.2.1) (by omega : 2 < 3) (by rw [hi.1]; exact a.1)
+      have fr1 : ∀ y, y < off → y ≠ g.1 → y ≠ m.β 2 g.1 → m1.β 1 y = m.β 1 y := by
+        intro y hy a b
+        refine hres.frame1 y ?_ (fun _ => ?_)
+        · intro hh; rcases List.mem_cons.1 hh with h | h
+          · exact a h
+          · have := inF y h; omega
+        · intro hh; rcases List.mem_cons.1 hh with h | h
+          · exact b h
+          · have := inS y h; omega
+      have fr2 : ∀ y, y ≠ g.1 → y ≠ m.β 2 g.1 → (y < off ∨ off + 2 * len ≤ y) → m1.β 2 y = m.β 2 y := by
+        intro y a b hy
+        refine hres.frame2 y (fun _ => ⟨?_, ?_⟩)
+        · intro hh; rcases List.mem_cons.1 hh with h | h
+          · exact a h
+          · have := inF y h; omega
+        · intro hh; rcases List.mem_cons.1 hh with h | h
+          · exact b h
+          · have := inS y h; omega
+      have hsub : ∀ g', g' ∈ rest → g' ∈ g :: rest := fun g' h => List.mem_cons_of_mem _ h
+      have hne_g : ∀ g', g' ∈ rest → g'.1 ≠ g.1 := by
+        intro g' hg' e
+        simp only [List.map_cons, List.nodup_cons, List.mem_map, not_exists, not_and] at hnd
+        exact hnd.1 g' hg' e
+      have hfresh1 : ∀ d, off + 2 * len ≤ d → d < m1.n → m1.unused d = false ∧ ∀ i, i < 3 → m1.β i d = 0 := by
+        intro d hd hdn
+        rw [inv.n_eq] at hdn
+        obtain ⟨fu, fb⟩ := hfresh d (by omega) hdn
+        refine ⟨by unfold Map.unused; rw [inv.u_eq]; exact fu, ?_⟩
+        have hb2g := hb2lt g List.mem_cons_self
+        have o1 : d ∉ g.1 :: (List.range' off (2 * len)).take (g.2.map (·.t)).length := by
+          intro hh; rcases List.mem_cons.1 hh with h | h
+          · omega
+          · have := inF d h; omega
+        have o2 : d ∉ m.β 2 g.1 :: (List.range' off (2 * len)).drop (g.2.map (·.t)).length := by
+          intro hh; rcases List.mem_cons.1 hh with h | h
+          · omega
+          · have := inS d h; omega
+        intro i hi
+        rcases (by omega : i = 0 ∨ i = 1 ∨ i = 2) with rfl | rfl | rfl
+        · rw [hres.frame0 d (fun h => o1 (List.mem_cons_of_mem _ h)) ?_ (fun _ => ⟨fun h => o2 (List.mem_cons_of_mem _ h), ?_⟩)]
+          · exact fb 0 (by omega)
+          · intro e
+            have hb : m.β 0 (m.β 1 g.1) = g.1 := hwf.inv01 g.1 ig.2.1 gb1
+            rw [← e, fb 0 (by omega)] at hb; exact ig.1 hb.symm
+          · intro e
+            by_cases hz : m.β 1 (m.β 2 g.1) = 0
+            · rw [hz] at e; omega
+            · have hb : m.β 0 (m.β 1 (m.β 2 g.1)) = m.β 2 g.1 := hwf.inv01 _ (hwf.range 2 (by omega) _ ig.2.1) hz
+              rw [← e, fb 0 (by omega)] at hb
+              have : m.β 1 (m.β 2 g.1) = 0 := by rw [← hb]; exact hwf.null 1 (by omega)
+              exact hz this
+        · rw [hres.frame1 d o1 (fun _ => o2)]; exact fb 1 (by omega)
+        · rw [hres.frame2 d (fun _ => ⟨o1, o2⟩)]; exact fb 2 (by omega)
+      have hkeys1 : ∀ g', g' ∈ rest → C01.InUse m1 g'.1 ∧ g'.1 < off + 2 * len ∧ m1.β 1 g'.1 ≠ 0 := by
+        intro g' hg'
+        obtain ⟨a, b, c⟩ := hkeys g' (hsub g' hg')
+        refine ⟨⟨a.1, by rw [inv.n_eq]; exact a.2.1, by unfold Map.unused; rw [inv.u_eq]; exact a.2.2⟩, by omega, ?_⟩
+        rw [fr1 g'.1 b (hne_g g' hg') (fun e => hcan g List.mem_cons_self g' (hsub g' hg') e.symm)]; exact c
+      have hb2same : ∀ a, a ∈ rest → m1.β 2 a.1 = m.β 2 a.1 := fun a ha =>
+        fr2 a.1 (hne_g a ha) (fun e => hcan g List.mem_cons_self a (hsub a ha) e.symm) (Or.inl (hkeys a (hsub a ha)).2.1)
+      have hcan1 : ∀ a, a ∈ rest → ∀ b, b ∈ rest → m1.β 2 a.1 ≠ b.1 := by
+        intro a ha b hb
+        rw [hb2same a ha]
+        exact hcan a (hsub a ha) b (hsub b hb)
+      rw [← inv.n_eq] at h2
+      obtain ⟨w', n', u', f2', new'⟩ := ih m1 m' (off + 2 * len) w1 hfresh1 (by rw [inv.n_eq]; omega) (by omega) hkeys1
+        (by simp only [List.map_cons, List.nodup_cons] at hnd; exact hnd.2) hcan1 h2
+      refine ⟨w', by rw [n', inv.n_eq], by rw [u', inv.u_eq], ?_, ?_⟩
+      · intro y hy hyk
+        rw [f2' y (by omega) (fun a ha => ⟨(hyk a (hsub a ha)).1, by rw [hb2same a ha]; exact (hyk a (hsub a ha)).2⟩)]
+        exact fr2 y (hyk g List.mem_cons_self).1 (hyk g List.mem_cons_self).2 (Or.inl hy)
+      · intro j gj hj i hi
+        cases j with
+        | zero =>
+            simp only [List.getElem?_cons_zero, Option.some.injEq] at hj
+            subst hj
+            simp only [List.take_zero, List.sum_nil, Nat.mul_zero, Nat.add_zero]
+            obtain ⟨a, b⟩ := insert_block_linked hts hwf ig hlive h1 hi
+            -- the later insertions leave these darts alone
+            have keep : ∀ y, off ≤ y → y < off + 2 * len → m'.β 2 y = m1.β 2 y := by
+              intro y h1' h2'
+              refine f2' y (by omega) (fun a' ha' => ⟨?_, ?_⟩)
+              · have := (hkeys a' (hsub a' ha')).2.1; omega
+              · rw [hb2same a' ha']; have := hb2lt a' (hsub a' ha'); omega
+            have iu' : ∀ y, C01.InUse m1 y → C01.InUse m' y := fun y h =>
+              ⟨h.1, by rw [n']; exact h.2.1, by unfold Map.unused; rw [u']; exact h.2.2⟩
+            refine ⟨iu' _ a, fun he2 => ?_⟩
+            obtain ⟨b1, b2, b3⟩ := b he2
+            exact ⟨iu' _ b1, by rw [keep _ (by omega) (by omega)]; exact b2, by rw [keep _ (by omega) (by omega)]; exact b3⟩
+        | succ j' =>
+            simp only [List.getElem?_cons_succ] at hj
+            have hgj : gj ∈ rest := List.mem_of_getElem? hj
+            have := new' j' gj hj i hi
+            rw [hb2same gj hgj] at this
+            have harith : off + 2 * len + 2 * (List.take j' (List.map (fun x => x.2.length) rest)).sum =
+                off + 2 * (List.take (j' + 1) (len :: List.map (fun x => x.2.length) rest)).sum := by
+              rw [List.take_succ_cons, List.sum_cons]; omega
+            rw [harith] at this
+            exact this
+
+/-! ## in general position every vertex of `new_segments` is a geometry vertex or a written slot -/
+
+/-- a geometry vertex, or an intersection whose identifier is a slot number below `N`; no corner -/
+def GVok (N : Nat) : GV → Prop
+  | .regular _ => True
+  | .poi _ => True
+  | .intersec i => i < N
+  | .corner _ => False
+
+theorem GVok.mono {N N' : Nat} (h : N ≤ N') : ∀ {v : GV}, GVok N v → GVok N' v
+  | .regular _, _ => trivial
+  | .poi _, _ => trivial
+  | .intersec i, hv => Nat.lt_of_lt_of_le hv h
+  | .corner _, hv => hv
+
+theorem mem_pairsOf {α : Type} : ∀ {l : List α} {p : α × α}, p ∈ pairsOf l → p.1 ∈ l ∧ p.2 ∈ l
+  | [], _, h => by simp [pairsOf] at h
+  | [_], _, h => by simp [pairsOf] at h
+  | a :: b :: rest, p, h => by
+      simp only [pairsOf, List.mem_cons] at h
+      rcases h with rfl | h
+      · exact ⟨by simp, by simp⟩
+      · have := mem_pairsOf (l := b :: rest) h
+        exact ⟨List.mem_cons_of_mem _ this.1, List.mem_cons_of_mem _ this.2⟩
+
+theorem segDist_eq (g : GGrid) (a b : Pt) : segDist g a b =
+    (((cellOf g b).1 : Int) - ((cellOf g a).1 : Int)).natAbs + (((cellOf g b).2 : Int) - ((cellOf g a).2 : Int)).natAbs := rfl
+
+theorem chainOf_ok {g : GGrid} {eps : Rat} {poi : List Nat} {verts : List Pt} {start : Nat} {seg : Nat × Nat}
+    (H : GenPos g eps (verts.getD seg.1 (0, 0)) (verts.getD seg.2 (0, 0))) :
+    ∀ v, v ∈ chainOf g eps poi verts start seg →
+      GVok (start + segDist g (verts.getD seg.1 (0, 0)) (verts.getD seg.2 (0, 0))) v := by
+  intro v hv
+  have hcount := C16_crossings_count H
+  rw [← segDist_eq] at hcount
+  unfold chainOf at hv
+  simp only [List.mem_cons, List.mem_append, List.mem_map, List.mem_singleton, List.not_mem_nil, or_false] at hv
+  have hmk : ∀ x, GVok (start + segDist g (verts.getD seg.1 (0, 0)) (verts.getD seg.2 (0, 0))) (mkGV poi x) := by
+    intro x; unfold mkGV; split <;> trivial
+  rcases hv with rfl | ⟨x, hx, rfl⟩ | rfl
+  · exact hmk _
+  · obtain ⟨c, p⟩ := x
+    have hp := List.mem_zipIdx_iff_getElem?.1 hx
+    have hplt : p < (crossingsOf g eps (verts.getD seg.1 (0, 0)) (verts.getD seg.2 (0, 0))).length := by
+      rcases Nat.lt_or_ge p (crossingsOf g eps (verts.getD seg.1 (0, 0)) (verts.getD seg.2 (0, 0))).length with h | h
+      · exact h
+      · rw [List.getElem?_eq_none h] at hp; cases hp
+    have hc : c ∈ crossingsOf g eps (verts.getD seg.1 (0, 0)) (verts.getD seg.2 (0, 0)) := List.mem_of_getElem? hp
+    have ht := (C16_crossings_sound H hc).2.2.1
+    simp only
+    rw [if_neg (fun hh => by rw [hh.2.2] at ht; exact lt_irrefl _ ht)]
+    show _ < _
+    rw [hcount] at hplt ⊢
+    split <;> omega
+  · exact hmk _
+
+theorem segmentsFrom_ok {g : GGrid} {eps : Rat} {poi : List Nat} {verts : List Pt} : ∀ (segs : List (Nat × Nat)) (start : Nat),
+    (∀ seg, seg ∈ segs → GenPos g eps (verts.getD seg.1 (0, 0)) (verts.getD seg.2 (0, 0))) →
+    ∀ p, p ∈ segmentsFrom g eps poi verts start segs →
+      GVok (start + (segs.map fun seg => segDist g (verts.getD seg.1 (0, 0)) (verts.getD seg.2 (0, 0))).sum) p.1 ∧
+      GVok (start + (segs.map fun seg => segDist g (verts.getD seg.1 (0, 0)) (verts.getD seg.2 (0, 0))).sum) p.2
+  | [], _, _, p, hp => by simp [segmentsFrom] at hp
+  | seg :: rest, start, hgen, p, hp => by
+      simp only [segmentsFrom, List.mem_append] at hp
+      simp only [List.map_cons, List.sum_cons]
+      rcases hp with hp | hp
+      · obtain ⟨a, b⟩ := mem_pairsOf hp
+        have H := hgen seg List.mem_cons_self
+        exact ⟨GVok.mono (by omega) (chainOf_ok H _ a), GVok.mono (by omega) (chainOf_ok H _ b)⟩
+      · have := segmentsFrom_ok rest _ (fun s hs => hgen s (List.mem_cons_of_mem _ hs)) p hp
+        rw [Nat.add_assoc] at this
+        exact this
+
+theorem slotsAll_length {g : GGrid} {eps : Rat} {verts : List Pt} : ∀ (segs : List (Nat × Nat)),
+    (∀ seg, seg ∈ segs → GenPos g eps (verts.getD seg.1 (0, 0)) (verts.getD seg.2 (0, 0))) →
+    (slotsAll g eps verts segs).length =
+      (segs.map fun seg => segDist g (verts.getD seg.1 (0, 0)) (verts.getD seg.2 (0, 0))).sum ∧
+    ∀ sl, sl ∈ slotsAll g eps verts segs → sl ≠ none
+  | [], _ => by simp [slotsAll]
+  | seg :: rest, hgen => by
+      have H := hgen seg List.mem_cons_self
+      obtain ⟨ih1, ih2⟩ := slotsAll_length rest (fun s hs => hgen s (List.mem_cons_of_mem _ hs))
+      have hs := C16_slots_genpos H
+      have hl : (slotsOf g eps (verts.getD seg.1 (0, 0)) (verts.getD seg.2 (0, 0))).length =
+          segDist g (verts.getD seg.1 (0, 0)) (verts.getD seg.2 (0, 0)) := by
+        rw [hs, List.length_map, (C16_metadata_spec H).2.2, segDist_eq]
+      unfold slotsAll at ih1 ih2 ⊢
+      simp only [List.flatMap_cons, List.length_append, List.map_cons, List.sum_cons, List.mem_append]
+      refine ⟨by rw [hl, ih1], ?_⟩
+      rintro sl (h | h)
+      · rw [hs] at h
+        obtain ⟨c, _, rfl⟩ := List.mem_map.1 h
+        simp
+      · exact ih2 sl h
+
+theorem segNext_mem {segs : List (GV × GV)} {k v : GV} (h : segNext segs k = some v) : (k, v) ∈ segs := by
+  unfold segNext at h
+  cases hf : segs.reverse.find? (fun p => decide (p.1 = k)) with
+  | none => rw [hf] at h; cases h
+  | some p =>
+      rw [hf] at h
+      simp only [Option.map_some, Option.some.injEq] at h
+      have hm := List.mem_of_find?_eq_some hf
+      have hp := List.find?_some hf
+      have : p.1 = k := by simpa using hp
+      have : p = (k, v) := Prod.ext this h
+      rw [← this]; exact List.mem_reverse.1 hm
+
+theorem path_end_ok {segs : List (GV × GV)} {N : Nat} (hok : ∀ p, p ∈ segs → GVok N p.2) {v e : GV} {l : List GV}
+    (hp : Path segs v l e) (hv : GVok N v) : GVok N e ∧ e.isCross = true := by
+  induction hp with
+  | stop h => exact ⟨hv, h⟩
+  | step _ hn _ ih => exact ih (hok _ (segNext_mem hn))
+
+/-- steps 2 + 3, discrete part: the dart of every written slot of a 2-linked grid edge is in use and 2-linked -/
+theorem steps23_linked {m0 m3 : Map Val} {slots : List Slot} {keys res : List Nat} (hwf : WF 3 m0) (hk : keys.Nodup)
+    (hkeys : ∀ e, e ∈ keys → C01.InUse m0 e ∧ m0.β 1 e ≠ 0 ∧ edgeOf (m0.β 2) e = e)
+    (hall : ∀ (K d : Nat) (t : Rat), slots[K]? = some (some (d, t)) → edgeOf (m0.β 2) d ∈ keys)
+    (hrun : stepsTwoThree m0 slots keys = (res, .ok (), m3)) :
+    WF 3 m3 ∧ ∀ (K d : Nat) (t : Rat), slots[K]? = some (some (d, t)) → d < m0.n → m0.β 2 d ≠ 0 →
+      ∃ x, res[K]? = some x ∧ C01.InUse m3 x ∧ m3.β 2 x ≠ 0 := by
+  unfold stepsTwoThree at hrun
+  simp only at hrun
+  set hs := hitsOf (m0.β 2) slots with hhs
+  set gs := groupsOf hs keys with hgs
+  set tot := 2 * (gs.map (·.2.length)).sum with htot
+  have hsz := hwf.toSized
+  have hfst : (m0.addFreeDarts tot).1 = m0.n := rfl
+  have hn1 : (m0.addFreeDarts tot).2.n = m0.n + tot := rfl
+  rw [hfst] at hrun
+  simp only [Prod.mk.injEq] at hrun
+  obtain ⟨hres, hout, hm3⟩ := hrun
+  have hr : run (insertIntersections (m0.addFreeDarts tot).2.n (gs.zip (slicesFrom m0.n (gs.map (·.2.length)))))
+      (m0.addFreeDarts tot).2 = (.ok (), m3) := Prod.ext hout hm3
+  have w1 : WF 3 (m0.addFreeDarts tot).2 := hwf.addFreeDarts (by omega) tot
+  have eβ : ∀ i d, i < 3 → d < m0.n → (m0.addFreeDarts tot).2.β i d = m0.β i d := by
+    intro i d hi hd; rw [addFreeDarts_β hsz tot i d hi, if_pos hd]
+  have iu1 : ∀ {d}, C01.InUse m0 d → C01.InUse (m0.addFreeDarts tot).2 d := by
+    intro d h
+    exact ⟨h.1, by rw [hn1]; have := h.2.1; omega, by rw [addFreeDarts_unused hsz, if_pos h.2.1]; exact h.2.2⟩
+  have hmemg : ∀ g, g ∈ gs → g.1 ∈ keys ∧ g.2 = groupOf hs g.1 := by
+    intro g hg
+    rw [hgs] at hg; unfold groupsOf at hg
+    obtain ⟨e, he, rfl⟩ := List.mem_map.1 hg
+    exact ⟨he, rfl⟩
+  have hmap1 : gs.map (·.1) = keys := by
+    rw [hgs]; unfold groupsOf; rw [List.map_map]
+    exact List.map_id' _
+  obtain ⟨w3, _, _, _, new3⟩ := insertIntersections_linked gs _ m3 m0.n w1
+    (by intro d hd hdn
+        refine ⟨by rw [addFreeDarts_unused hsz, if_neg (by omega)], fun i hi => ?_⟩
+        rw [addFreeDarts_β hsz tot i d hi, if_neg (by omega)])
+    (by rw [hn1]) hsz.npos
+    (by intro g hg
+        obtain ⟨a, b, _⟩ := hkeys g.1 (hmemg g hg).1
+        exact ⟨iu1 a, a.2.1, by rw [eβ 1 _ (by omega) a.2.1]; exact b⟩)
+    (by rw [hmap1]; exact hk)
+    (by intro g hg g' hg'
+        obtain ⟨a, _, c⟩ := hkeys g.1 (hmemg g hg).1
+        obtain ⟨a', _, c'⟩ := hkeys g'.1 (hmemg g' hg').1
+        rw [eβ 2 _ (by omega) a.2.1]
+        exact canonical_not_opposite hwf a a'.1 c c') hr
+  refine ⟨w3, ?_⟩
+  intro K d t hK hdlt hb2
+  set e := edgeOf (m0.β 2) d with he
+  set h : Hit := { idx := K, t := if e ≠ d then 1 - t else t, dart := d } with hh
+  have hx : (e, h) ∈ hs := (C16_hits_slot_numbers (m0.β 2) slots _).2 ⟨K, d, t, hK, rfl⟩
+  have hek : e ∈ keys := hall K d t hK
+  obtain ⟨j, hj⟩ := List.getElem?_of_mem hek
+  obtain ⟨i, hi⟩ := List.getElem?_of_mem (mem_groupOf.2 hx)
+  have hilt : i < (groupOf hs e).length := by
+    rcases Nat.lt_or_ge i (groupOf hs e).length with h' | h'
+    · exact h'
+    · rw [List.getElem?_eq_none h'] at hi; cases hi
+  have hval := intersection_ids_at (base := m0.n) (hits_idx_nodup (m0.β 2) slots) hk slots.length
+    (fun x hx' => hits_idx_lt (m0.β 2) slots hx') hx hj hi
+  rw [← hgs, hres] at hval
+  have hgj : gs[j]? = some (e, groupOf hs e) := by
+    rw [hgs]; unfold groupsOf; rw [List.getElem?_map, hj]; rfl
+  obtain ⟨ie, _, _⟩ := hkeys e hek
+  -- the edge is 2-linked: it is `d`'s edge
+  have he2 : (m0.addFreeDarts tot).2.β 2 e ≠ 0 := by
+    rw [eβ 2 _ (by omega) ie.2.1]
+    have : edgeOf (m0.β 2) d = e := he.symm
+    unfold edgeOf at this
+    by_cases hc : m0.β 2 d ≠ 0 ∧ m0.β 2 d < d
+    · rw [if_pos hc] at this
+      rw [← this, (hwf.invol 2 (by omega) (by omega) d hdlt hb2).1]
+      intro h0; rw [h0, hwf.null 2 (by omega)] at hb2; exact hb2 rfl
+    · rw [if_neg hc] at this; rw [← this]; exact hb2
+  obtain ⟨a, b⟩ := new3 j _ hgj i hilt
+  obtain ⟨b1, b2, b3⟩ := b he2
+  refine ⟨_, hval, ?_⟩
+  by_cases hd : h.dart = e
+  · rw [if_pos hd]; exact ⟨a, b2⟩
+  · rw [if_neg hd]; exact ⟨b1, b3⟩
+
 /-! ## the chain -/
 
 /-- steps 1-5 of the modelled pipeline on the grid map `m0`, for the iteration orders `keys2` (edges of step 2) and
@@ -1116,6 +1529,76 @@ def KeysOK (m0 : Map Val) (slots : List Slot) (keys2 : List Nat) : Prop :=
 def EdgeDartsInUse (m3 : Map Val) (edges : List MEdge) : Prop :=
   ∀ e, e ∈ edges → C01.InUse m3 e.start ∧ C01.InUse m3 e.stop
 
+/-- **C16 — `EdgeDartsInUse` is a consequence of the earlier steps**: in general position, with the crossed grid edges
+    2-linked and the keys of step 4 intersections (what `generate_edge_data` filters), the start and end darts of every
+    edge of step 4 are darts in use of the map after step 3: the end dart is the dart of a written slot, the start dart the
+    β2 image of one -/
+theorem C16_edge_darts_in_use {m0 m3 : Map Val} {g : GGrid} {eps : Rat} {poi : List Nat} {verts : List Pt}
+    {segs : List (Nat × Nat)} {keys2 res : List Nat} {keys4 : List GV} {edges : List MEdge} (hwf : WF 3 m0)
+    (hgen : ∀ seg, seg ∈ segs → GenPos g eps (verts.getD seg.1 (0, 0)) (verts.getD seg.2 (0, 0)))
+    (hkeys : KeysOK m0 (slotsAll g eps verts segs) keys2)
+    (hint : ∀ (K d : Nat) (t : Rat), (slotsAll g eps verts segs)[K]? = some (some (d, t)) → d < m0.n ∧ m0.β 2 d ≠ 0)
+    (hk4 : ∀ k, k ∈ keys4 → k.isCross = true)
+    (h23 : stepsTwoThree m0 (slotsAll g eps verts segs) keys2 = (res, .ok (), m3))
+    (h4 : edgeData (m3.β 1) (m3.β 2) verts (segmentsOf g eps poi verts segs) res keys4 = .ok edges) :
+    EdgeDartsInUse m3 edges := by
+  obtain ⟨w3, hlink⟩ := steps23_linked hwf hkeys.1 hkeys.2.1 hkeys.2.2 h23
+  obtain ⟨hlen, hnone⟩ := slotsAll_length (g := g) (eps := eps) (verts := verts) segs hgen
+  have hok0 := fun p hp => segmentsFrom_ok (g := g) (eps := eps) (poi := poi) (verts := verts) segs 0 hgen p hp
+  simp only [Nat.zero_add] at hok0
+  set N := (segs.map fun seg => segDist g (verts.getD seg.1 (0, 0)) (verts.getD seg.2 (0, 0))).sum with hN
+  have hok : ∀ p, p ∈ segmentsOf g eps poi verts segs → GVok N p.1 ∧ GVok N p.2 := fun p hp => hok0 p hp
+  -- the dart of every slot number below `N`
+  have hslot : ∀ i, i < N → ∃ x, res.getD i 0 = x ∧ C01.InUse m3 x ∧ m3.β 2 x ≠ 0 := by
+    intro i hi
+    have hilt : i < (slotsAll g eps verts segs).length := by rw [hlen]; exact hi
+    cases hsl : (slotsAll g eps verts segs)[i]? with
+    | none => rw [List.getElem?_eq_none_iff] at hsl; omega
+    | some sl =>
+        cases sl with
+        | none => exact absurd rfl (hnone none (List.mem_of_getElem? hsl))
+        | some dt =>
+            obtain ⟨x, hx, a, b⟩ := hlink i dt.1 dt.2 hsl (hint i dt.1 dt.2 hsl).1 (hint i dt.1 dt.2 hsl).2
+            exact ⟨x, by rw [List.getD_eq_getElem?_getD, hx]; rfl, a, b⟩
+  intro e he
+  have hf := (edgeData_ok keys4 edges).1 h4
+  -- the key of this edge
+  have : ∃ k, k ∈ keys4 ∧ edgeOfKey (m3.β 1) (m3.β 2) verts (segmentsOf g eps poi verts segs) res k = .ok e := by
+    clear h4
+    induction hf with
+    | nil => cases he
+    | @cons k e' ks es h1 _ ih =>
+        rcases List.mem_cons.1 he with rfl | he'
+        · exact ⟨k, List.mem_cons_self, h1⟩
+        · obtain ⟨k', a, b⟩ := ih (fun k hk => hk4 k (List.mem_cons_of_mem _ hk)) he'
+          exact ⟨k', List.mem_cons_of_mem _ a, b⟩
+  obtain ⟨k, hk, hkey⟩ := this
+  obtain ⟨v, l, en, hn, hp, _, hed⟩ := (C16_edge_of_key_spec _ _ _ _ _ _ _).1 hkey
+  have hkv := segNext_mem hn
+  have hkok := (hok _ hkv).1
+  have hvok := (hok _ hkv).2
+  obtain ⟨henok, hencross⟩ := path_end_ok (N := N) (fun p hp' => (hok p hp').2) hp hvok
+  have hkc := hk4 k hk
+  rw [hed]
+  constructor
+  · -- start dart: the β2 image of the dart of the start intersection
+    cases k with
+    | intersec i =>
+        obtain ⟨x, hx, a, b⟩ := hslot i hkok
+        show C01.InUse m3 (m3.β 2 (res.getD i 0))
+        rw [hx]; exact inUse_image w3 (by omega) a.2.1 b
+    | corner d => exact absurd hkok (by simp [GVok])
+    | regular i => simp [GV.isCross] at hkc
+    | poi i => simp [GV.isCross] at hkc
+  · cases en with
+    | intersec j =>
+        obtain ⟨x, hx, a, _⟩ := hslot j henok
+        show C01.InUse m3 (res.getD j 0)
+        rw [hx]; exact a
+    | corner d => exact absurd henok (by simp [GVok])
+    | regular i => simp [GV.isCross] at hencross
+    | poi i => simp [GV.isCross] at hencross
+
 /-- **C16 — every crossing of the boundary with a grid line is a vertex of the map the pipeline returns**.
     For every grid, every geometry whose segments are in eps-general position, every iteration order of the two `HashMap`s:
     if the modelled pipeline (steps 1-5) succeeds on a well-formed untagged grid map carrying the sides (SideCoords), then for
@@ -1123,7 +1606,7 @@ def EdgeDartsInUse (m3 : Map Val) (edges : List MEdge) : Prop :=
     vertex has the coordinates `segPoint a b s`.  Chain: `C16_crossings_complete` (the crossing is reported) →
     `C16_slots_genpos` (it has a written slot) → `C16_steps23_carries` (all-edges induction of step 3: its dart starts at
     the point) → `C16_stepFive_carries` (step 5 keeps the vertices). -/
-theorem C16_crossings_are_vertices {m0 m' : Map Val} {g : GGrid} {eps : Rat} {poi : List Nat} {verts : List Pt}
+theorem C16_crossings_are_vertices_partial {m0 m' : Map Val} {g : GGrid} {eps : Rat} {poi : List Nat} {verts : List Pt}
     {segs : List (Nat × Nat)} {ha : Bool} {keys2 : List Nat} {keys4 : List GV}
     (hwf : WF 3 m0)
     (hgen : ∀ seg, seg ∈ segs → GenPos g eps (verts.getD seg.1 (0, 0)) (verts.getD seg.2 (0, 0)))
@@ -1175,7 +1658,7 @@ theorem poisOf_mem {verts : List Pt} {l : List GV} {v : Nat} (h : GV.poi v ∈ l
     intermediate point of the edge of its key) → `C16_edge_data_spec` (that edge is built, whatever the `HashMap` order) →
     `C16_insertOneEdge_shape` (it becomes the coordinate of the vertex of an intermediate dart, anchored `Node(j)`) →
     `carriesS_insertOneEdge` (the later iterations keep that vertex). -/
-theorem C16_poi_are_vertices {m0 m' : Map Val} {g : GGrid} {eps : Rat} {poi : List Nat} {verts : List Pt}
+theorem C16_poi_are_vertices_partial {m0 m' : Map Val} {g : GGrid} {eps : Rat} {poi : List Nat} {verts : List Pt}
     {segs : List (Nat × Nat)} {ha : Bool} {keys2 : List Nat} {keys4 : List GV}
     (hwf : WF 3 m0) (hnotag : ∀ d, m0.att sBd d = none) (hkeys : KeysOK m0 (slotsAll g eps verts segs) keys2)
     (hrun : pipelineMap m0 g eps poi verts segs ha keys2 keys4 = some m')
@@ -1202,7 +1685,7 @@ theorem C16_poi_are_vertices {m0 m' : Map Val} {g : GGrid} {eps : Rat} {poi : Li
 
 /-- **C17 — capture: each retained point of interest is a vertex anchored to a node** (`C16_poi_are_vertices` with the
     anchor storages) -/
-theorem C17_poi_are_node_vertices {m0 m' : Map Val} {g : GGrid} {eps : Rat} {poi : List Nat} {verts : List Pt}
+theorem C17_poi_are_node_vertices_partial {m0 m' : Map Val} {g : GGrid} {eps : Rat} {poi : List Nat} {verts : List Pt}
     {segs : List (Nat × Nat)} {keys2 : List Nat} {keys4 : List GV}
     (hwf : WF 3 m0) (hnotag : ∀ d, m0.att sBd d = none) (hkeys : KeysOK m0 (slotsAll g eps verts segs) keys2)
     (hrun : pipelineMap m0 g eps poi verts segs true keys2 keys4 = some m')
@@ -1212,7 +1695,91 @@ theorem C17_poi_are_node_vertices {m0 m' : Map Val} {g : GGrid} {eps : Rat} {poi
     ∃ x j, C01.InUse m' x ∧
       m'.att 0 (C03.cellId m' .vertex x) = some (.pt (verts.getD v (0, 0)).1 (verts.getD v (0, 0)).2 0) ∧
       m'.att sVA (C03.cellId m' .vertex x) = some (.tm (.leaf (4 * j))) := by
-  obtain ⟨x, j, c0, ca⟩ := C16_poi_are_vertices hwf hnotag hkeys hrun hedges hv
+  obtain ⟨x, j, c0, ca⟩ := C16_poi_are_vertices_partial hwf hnotag hkeys hrun hedges hv
+  exact ⟨x, j, c0.1, c0.2, (ca rfl).2⟩
+
+/-! ## fewer hypotheses: `KeysOK` and `EdgeDartsInUse` discharged -/
+
+/-- hypothesis **HitDartsOK** (about the grid map only): every dart a slot names is in use, has a successor, is 2-linked (the
+    crossed grid edges are interior: the grid has a margin of one cell) and its opposite dart has a successor -/
+def HitDartsOK (m0 : Map Val) (slots : List Slot) : Prop :=
+  ∀ (K d : Nat) (t : Rat), slots[K]? = some (some (d, t)) →
+    C01.InUse m0 d ∧ m0.β 1 d ≠ 0 ∧ m0.β 2 d ≠ 0 ∧ m0.β 1 (m0.β 2 d) ≠ 0
+
+/-- hypothesis **KeysAreHitEdges** (about the `HashMap` only): its iteration yields each key once, and its keys are exactly
+    the edges that were hit — true of every iteration of a `HashMap` keyed by `edge_id` -/
+def KeysAreHitEdges (b2 : Nat → Nat) (slots : List Slot) (keys2 : List Nat) : Prop :=
+  keys2.Nodup ∧ ∀ e, e ∈ keys2 ↔ ∃ h, (e, h) ∈ hitsOf b2 slots
+
+/-- **`KeysOK` is a consequence of the model**: whatever the iteration order, the keys are in-use identifier darts with a
+    successor, and every hit edge is among them -/
+theorem keysOK_of_hit_edges {m0 : Map Val} {slots : List Slot} {keys2 : List Nat} (hwf : WF 3 m0)
+    (hhit : HitDartsOK m0 slots) (hk : KeysAreHitEdges (m0.β 2) slots keys2) : KeysOK m0 slots keys2 := by
+  refine ⟨hk.1, ?_, ?_⟩
+  · intro e he
+    obtain ⟨h, hh⟩ := (hk.2 e).1 he
+    obtain ⟨K, d, t, hK, hx⟩ := (C16_hits_slot_numbers (m0.β 2) slots _).1 hh
+    injection hx with he' _
+    obtain ⟨iu, b1, b2, b12⟩ := hhit K d t hK
+    have hi := hwf.invol 2 (by omega) (by omega) d iu.2.1 b2
+    rw [he']
+    unfold edgeOf
+    by_cases hc : m0.β 2 d ≠ 0 ∧ m0.β 2 d < d
+    · rw [if_pos hc]
+      refine ⟨inUse_image hwf (by omega) iu.2.1 b2, b12, ?_⟩
+      rw [hi.1, if_neg (fun hh' => by omega)]
+    · rw [if_neg hc]
+      exact ⟨iu, b1, by rw [if_neg hc]⟩
+  · intro K d t hK
+    exact (hk.2 _).2 ⟨_, (C16_hits_slot_numbers (m0.β 2) slots _).2 ⟨K, d, t, hK, rfl⟩⟩
+
+/-- **C16 — every crossing is a vertex** (full form): hypotheses about the grid map (`SideCoords`, `HitDartsOK`, well formed,
+    untagged), about the geometry (`GenPos`), about what the two `HashMap`s iterate over (`KeysAreHitEdges`; the keys of
+    step 4 are intersections) and success of the run; `KeysOK` and `EdgeDartsInUse` are proved -/
+theorem C16_crossings_are_vertices {m0 m' : Map Val} {g : GGrid} {eps : Rat} {poi : List Nat} {verts : List Pt}
+    {segs : List (Nat × Nat)} {ha : Bool} {keys2 : List Nat} {keys4 : List GV}
+    (hwf : WF 3 m0) (hnotag : ∀ d, m0.att sBd d = none)
+    (hgen : ∀ seg, seg ∈ segs → GenPos g eps (verts.getD seg.1 (0, 0)) (verts.getD seg.2 (0, 0)))
+    (hside : SideCoords m0 g eps verts segs) (hhit : HitDartsOK m0 (slotsAll g eps verts segs))
+    (hk2 : KeysAreHitEdges (m0.β 2) (slotsAll g eps verts segs) keys2) (hk4 : ∀ k, k ∈ keys4 → k.isCross = true)
+    (hrun : pipelineMap m0 g eps poi verts segs ha keys2 keys4 = some m') :
+    ∀ seg, seg ∈ segs → ∀ s, IsCrossing g (verts.getD seg.1 (0, 0)) (verts.getD seg.2 (0, 0)) s →
+      ∃ x, Carries m' x (.pt (segPoint (verts.getD seg.1 (0, 0)) (verts.getD seg.2 (0, 0)) s).1
+                             (segPoint (verts.getD seg.1 (0, 0)) (verts.getD seg.2 (0, 0)) s).2 0) := by
+  have hkeys := keysOK_of_hit_edges hwf hhit hk2
+  exact C16_crossings_are_vertices_partial hwf hgen hside hkeys hrun hnotag
+    (fun res m3 edges h23 h4 => C16_edge_darts_in_use hwf hgen hkeys
+      (fun K d t hK => ⟨(hhit K d t hK).1.2.1, (hhit K d t hK).2.2.1⟩) hk4 h23 h4)
+
+/-- **C16 / C17 — every point of interest on a chain between two crossings is a vertex** (full form) -/
+theorem C16_poi_are_vertices {m0 m' : Map Val} {g : GGrid} {eps : Rat} {poi : List Nat} {verts : List Pt}
+    {segs : List (Nat × Nat)} {ha : Bool} {keys2 : List Nat} {keys4 : List GV}
+    (hwf : WF 3 m0) (hnotag : ∀ d, m0.att sBd d = none)
+    (hgen : ∀ seg, seg ∈ segs → GenPos g eps (verts.getD seg.1 (0, 0)) (verts.getD seg.2 (0, 0)))
+    (hhit : HitDartsOK m0 (slotsAll g eps verts segs))
+    (hk2 : KeysAreHitEdges (m0.β 2) (slotsAll g eps verts segs) keys2) (hk4 : ∀ k, k ∈ keys4 → k.isCross = true)
+    (hrun : pipelineMap m0 g eps poi verts segs ha keys2 keys4 = some m')
+    {v : Nat} (hv : OnChain (segmentsOf g eps poi verts segs) keys4 v) :
+    ∃ x j, Carries m' x (.pt (verts.getD v (0, 0)).1 (verts.getD v (0, 0)).2 0) ∧
+      (ha = true → CarriesS m' sVA x (.tm (.leaf (4 * j)))) := by
+  have hkeys := keysOK_of_hit_edges hwf hhit hk2
+  exact C16_poi_are_vertices_partial hwf hnotag hkeys hrun
+    (fun res m3 edges h23 h4 => C16_edge_darts_in_use hwf hgen hkeys
+      (fun K d t hK => ⟨(hhit K d t hK).1.2.1, (hhit K d t hK).2.2.1⟩) hk4 h23 h4) hv
+
+/-- **C17 — capture: each retained point of interest is a vertex anchored to a node** (full form) -/
+theorem C17_poi_are_node_vertices {m0 m' : Map Val} {g : GGrid} {eps : Rat} {poi : List Nat} {verts : List Pt}
+    {segs : List (Nat × Nat)} {keys2 : List Nat} {keys4 : List GV}
+    (hwf : WF 3 m0) (hnotag : ∀ d, m0.att sBd d = none)
+    (hgen : ∀ seg, seg ∈ segs → GenPos g eps (verts.getD seg.1 (0, 0)) (verts.getD seg.2 (0, 0)))
+    (hhit : HitDartsOK m0 (slotsAll g eps verts segs))
+    (hk2 : KeysAreHitEdges (m0.β 2) (slotsAll g eps verts segs) keys2) (hk4 : ∀ k, k ∈ keys4 → k.isCross = true)
+    (hrun : pipelineMap m0 g eps poi verts segs true keys2 keys4 = some m')
+    {v : Nat} (hv : OnChain (segmentsOf g eps poi verts segs) keys4 v) :
+    ∃ x j, C01.InUse m' x ∧
+      m'.att 0 (C03.cellId m' .vertex x) = some (.pt (verts.getD v (0, 0)).1 (verts.getD v (0, 0)).2 0) ∧
+      m'.att sVA (C03.cellId m' .vertex x) = some (.tm (.leaf (4 * j))) := by
+  obtain ⟨x, j, c0, ca⟩ := C16_poi_are_vertices hwf hnotag hgen hhit hk2 hk4 hrun hv
   exact ⟨x, j, c0.1, c0.2, (ca rfl).2⟩
 
 /-! ## the hypotheses are satisfiable together -/
@@ -1241,7 +1808,7 @@ example : ∃ m' x, pipelineMap exRowPlain exGrid (1/8) [] exVA [(0, 1)] false [
   have hsome : (pipelineMap exRowPlain exGrid (1/8) [] exVA [(0, 1)] false [2] []).isSome = true := by decide +kernel
   obtain ⟨m', hm'⟩ := Option.isSome_iff_exists.1 hsome
   have hcross : crossingsOf exGrid (1/8) (1/4, 1/2) (7/4, 3/4) = [⟨2, 5/8, 1/2⟩] := by decide +kernel
-  have := C16_crossings_are_vertices (m0 := exRowPlain) (g := exGrid) (eps := 1/8) (poi := []) (verts := exVA)
+  have := C16_crossings_are_vertices_partial (m0 := exRowPlain) (g := exGrid) (eps := 1/8) (poi := []) (verts := exVA)
     (segs := [(0, 1)]) (ha := false) (keys2 := [2]) (keys4 := []) exRowPlain_wf
     (by intro seg hseg
         have : seg = (0, 1) := by simpa using hseg
@@ -1289,7 +1856,7 @@ example : ∃ m' x j, pipelineMap exRowPlain exGrid (1/8) [1] exVB exSB true [2,
   have hsome : (pipelineMap exRowPlain exGrid (1/8) [1] exVB exSB true [2, 6] [.intersec 0]).isSome = true := by
     decide +kernel
   obtain ⟨m', hm'⟩ := Option.isSome_iff_exists.1 hsome
-  obtain ⟨x, j, h1, h2, h3⟩ := C17_poi_are_node_vertices (m0 := exRowPlain) (g := exGrid) (eps := 1/8) (poi := [1])
+  obtain ⟨x, j, h1, h2, h3⟩ := C17_poi_are_node_vertices_partial (m0 := exRowPlain) (g := exGrid) (eps := 1/8) (poi := [1])
     (verts := exVB) (segs := exSB) (keys2 := [2, 6]) (keys4 := [.intersec 0]) (v := 1) exRowPlain_wf exRowPlain_notag
     (by rw [exB_slots]
         refine ⟨by decide, by decide +kernel, ?_⟩
@@ -1319,5 +1886,136 @@ example : ∃ m' x j, pipelineMap exRowPlain exGrid (1/8) [1] exVB exSB true [2,
     ⟨.intersec 0, .poi 1, [.poi 1], .intersec 1, by simp, by decide +kernel,
       Path.step rfl (by decide +kernel) (Path.stop rfl), by decide +kernel, by simp⟩
   exact ⟨m', x, j, hm', h1, h2, h3⟩
+
+/-! ### the full forms -/
+
+/-- the second segment of example (C) is in general position too: one crossing, of `x = 2`, at `s = 1/4` -/
+theorem exGenPos2 : GenPos exGrid (1 / 8) (7/4, 3/4) (11/4, 1/2) := by
+  have hx : ∀ s : Rat, (segPoint (7/4, 3/4) (11/4, 1/2) s).1 = 7/4 + s * 1 := by
+    intro s; simp only [segPoint]; ring
+  have hy : ∀ s : Rat, (segPoint (7/4, 3/4) (11/4, 1/2) s).2 = 3/4 - s * (1/4) := by
+    intro s; simp only [segPoint]; ring
+  have nonint : ∀ (q : Rat) (m : Int), (m : Rat) < q → q < (m : Rat) + 1 → ∀ K : Int, q ≠ (K : Rat) :=
+    fun q m h1 h2 K e => no_int_between h1 h2 e
+  refine ⟨by norm_num [exGrid], by norm_num [exGrid], by norm_num, by norm_num [exGrid], by norm_num [exGrid],
+    ?_, ?_, ?_, ?_⟩
+  · constructor
+    · rintro ⟨K, e⟩; exact nonint (7/4) 1 (by norm_num) (by norm_num) K (by simpa [exGrid] using e)
+    · rintro ⟨K, e⟩; exact nonint (3/4) 0 (by norm_num) (by norm_num) K (by simpa [exGrid] using e)
+  · constructor
+    · rintro ⟨K, e⟩; exact nonint (11/4) 2 (by norm_num) (by norm_num) K (by simpa [exGrid] using e)
+    · rintro ⟨K, e⟩; exact nonint (1/2) 0 (by norm_num) (by norm_num) K (by simpa [exGrid] using e)
+  · rintro s s0 s1 ⟨K, e⟩
+    rw [hx] at e
+    simp only [exGrid, zero_add, mul_one] at e ⊢
+    have hK : K = 2 := by
+      have a1 : (1 : Rat) < (K : Rat) := by linarith
+      have a2 : (K : Rat) < 3 := by linarith
+      have b1 : (1 : Int) < K := by exact_mod_cast a1
+      have b2 : K < 3 := by exact_mod_cast a2
+      omega
+    subst hK
+    have hs : s = 1/4 := by push_cast at e; linarith
+    subst hs
+    refine ⟨by norm_num, by norm_num, fun L => ?_⟩
+    rw [hy]
+    rcases le_or_gt L 0 with h | h
+    · have : (L : Rat) ≤ 0 := by exact_mod_cast h
+      rw [abs_of_nonneg (by linarith)]; linarith
+    · have : (1 : Rat) ≤ (L : Rat) := by exact_mod_cast h
+      rw [abs_of_nonpos (by linarith)]; linarith
+  · rintro s s0 s1 ⟨L, e⟩
+    exfalso
+    rw [hy] at e
+    simp only [exGrid, zero_add, mul_one] at e
+    exact nonint (3/4 - s * (1/4)) 0 (by push_cast; linarith) (by push_cast; linarith) L e
+
+/-- (C) `a → b → c` through the three cells, both segments in general position, `b` a point of interest -/
+def exVC : List Pt := [(1/4, 1/2), (7/4, 3/4), (11/4, 1/2)]
+def exSC : List (Nat × Nat) := [(0, 1), (1, 2)]
+
+theorem exC_slots : slotsAll exGrid (1/8) exVC exSC = [some (2, 5/8), some (6, 11/16)] := by decide +kernel
+theorem exC_hits : hitsOf (exRowPlain.β 2) (slotsAll exGrid (1/8) exVC exSC) =
+    [(2, { idx := 0, t := 5/8, dart := 2 }), (6, { idx := 1, t := 11/16, dart := 6 })] := by decide +kernel
+
+theorem exC_gen : ∀ seg, seg ∈ exSC → GenPos exGrid (1/8) (exVC.getD seg.1 (0, 0)) (exVC.getD seg.2 (0, 0)) := by
+  intro seg hseg
+  have : seg = (0, 1) ∨ seg = (1, 2) := by simpa [exSC] using hseg
+  rcases this with rfl | rfl
+  · exact exGenPos
+  · exact exGenPos2
+
+theorem exC_hit : HitDartsOK exRowPlain (slotsAll exGrid (1/8) exVC exSC) := by
+  rw [exC_slots]
+  intro K d t hK
+  rcases K with _ | _ | K'
+  · simp only [List.getElem?_cons_zero, Option.some.injEq, Prod.mk.injEq] at hK
+    obtain ⟨rfl, _⟩ := hK; decide +kernel
+  · simp only [List.getElem?_cons_succ, List.getElem?_cons_zero, Option.some.injEq, Prod.mk.injEq] at hK
+    obtain ⟨rfl, _⟩ := hK; decide +kernel
+  · simp at hK
+
+theorem exC_keys : KeysAreHitEdges (exRowPlain.β 2) (slotsAll exGrid (1/8) exVC exSC) [2, 6] := by
+  refine ⟨by decide, fun e => ?_⟩
+  rw [exC_hits]
+  constructor
+  · intro he
+    have : e = 2 ∨ e = 6 := by simpa using he
+    rcases this with rfl | rfl
+    · exact ⟨{ idx := 0, t := 5/8, dart := 2 }, by simp⟩
+    · exact ⟨{ idx := 1, t := 11/16, dart := 6 }, by simp⟩
+  · rintro ⟨h, hh⟩
+    simp only [List.mem_cons, Prod.mk.injEq, List.not_mem_nil, or_false] at hh
+    rcases hh with ⟨rfl, _⟩ | ⟨rfl, _⟩ <;> simp
+
+-- the full forms apply: the point of interest `b` is a vertex of the result anchored to a node …
+example : ∃ m' x j, pipelineMap exRowPlain exGrid (1/8) [1] exVC exSC true [2, 6] [.intersec 0] = some m' ∧
+    C01.InUse m' x ∧ m'.att 0 (C03.cellId m' .vertex x) = some (.pt (7/4) (3/4) 0) ∧
+    m'.att sVA (C03.cellId m' .vertex x) = some (.tm (.leaf (4 * j))) := by
+  have hsome : (pipelineMap exRowPlain exGrid (1/8) [1] exVC exSC true [2, 6] [.intersec 0]).isSome = true := by
+    decide +kernel
+  obtain ⟨m', hm'⟩ := Option.isSome_iff_exists.1 hsome
+  obtain ⟨x, j, h1, h2, h3⟩ := C17_poi_are_node_vertices (v := 1) exRowPlain_wf exRowPlain_notag exC_gen exC_hit exC_keys
+    (by intro k hk; have : k = .intersec 0 := by simpa using hk
+        subst this; rfl) hm'
+    ⟨.intersec 0, .poi 1, [.poi 1], .intersec 1, by simp, by decide +kernel,
+      Path.step rfl (by decide +kernel) (Path.stop rfl), by decide +kernel, by simp⟩
+  exact ⟨m', x, j, hm', h1, h2, h3⟩
+
+-- … and the two crossings are vertices (here the one of the second segment with `x = 2`, at `(2, 11/16)`)
+example : ∃ m' x, pipelineMap exRowPlain exGrid (1/8) [1] exVC exSC true [2, 6] [.intersec 0] = some m' ∧
+    Carries m' x (.pt 2 (11/16) 0) := by
+  have hsome : (pipelineMap exRowPlain exGrid (1/8) [1] exVC exSC true [2, 6] [.intersec 0]).isSome = true := by
+    decide +kernel
+  obtain ⟨m', hm'⟩ := Option.isSome_iff_exists.1 hsome
+  have hc1 : crossingsOf exGrid (1/8) (1/4, 1/2) (7/4, 3/4) = [⟨2, 5/8, 1/2⟩] := by decide +kernel
+  have hc2 : crossingsOf exGrid (1/8) (7/4, 3/4) (11/4, 1/2) = [⟨6, 11/16, 1/4⟩] := by decide +kernel
+  have hside : SideCoords exRowPlain exGrid (1/8) exVC exSC := by
+    intro seg hseg c hc
+    have : seg = (0, 1) ∨ seg = (1, 2) := by simpa [exSC] using hseg
+    rcases this with rfl | rfl
+    · have hc' : c ∈ crossingsOf exGrid (1/8) (1/4, 1/2) (7/4, 3/4) := hc
+      rw [hc1] at hc'
+      have : c = ⟨2, 5/8, 1/2⟩ := by simpa using hc'
+      subst this
+      exact ⟨by decide +kernel, by decide +kernel, .pt 1 0 0, .pt 1 1 0, ⟨by decide +kernel, by decide +kernel⟩,
+        ⟨by decide +kernel, by decide +kernel⟩, by decide +kernel⟩
+    · have hc' : c ∈ crossingsOf exGrid (1/8) (7/4, 3/4) (11/4, 1/2) := hc
+      rw [hc2] at hc'
+      have : c = ⟨6, 11/16, 1/4⟩ := by simpa using hc'
+      subst this
+      exact ⟨by decide +kernel, by decide +kernel, .pt 2 0 0, .pt 2 1 0, ⟨by decide +kernel, by decide +kernel⟩,
+        ⟨by decide +kernel, by decide +kernel⟩, by decide +kernel⟩
+  have := C16_crossings_are_vertices exRowPlain_wf exRowPlain_notag exC_gen hside exC_hit exC_keys
+    (by intro k hk; have : k = .intersec 0 := by simpa using hk
+        subst this; rfl) hm' (1, 2) (by simp [exSC]) (1/4)
+    (by show IsCrossing exGrid (7/4, 3/4) (11/4, 1/2) (1/4)
+        exact ⟨by norm_num, by norm_num, Or.inl ⟨2, by simp [segPoint, exGrid]; norm_num⟩⟩)
+  obtain ⟨x, hx⟩ := this
+  refine ⟨m', x, hm', ?_⟩
+  have e : segPoint (exVC.getD 1 (0, 0)) (exVC.getD 2 (0, 0)) (1/4) = (2, 11/16) := by decide +kernel
+  simp only at hx
+  rw [e] at hx
+  exact hx
 
 end HC.C16
